@@ -699,7 +699,16 @@ func liftedGuards(fn *ssa.Function, depth int) []guard {
 			continue
 		}
 		// only helpers of the protocol itself (not methods of other data types such as proofs)
-		if g.Signature.Recv() != nil && fn.Signature.Recv() != nil && namedOf(g.Signature.Recv().Type()) != namedOf(fn.Signature.Recv().Type()) {
+		// ... except a validation method of one of fn's own input parameters (msg.validate(n))
+		onParam := false
+		if g.Signature.Recv() != nil && len(call.Call.Args) > 0 {
+			if prm, ok := call.Call.Args[0].(*ssa.Parameter); ok && (fn.Signature.Recv() == nil || prm != fn.Params[0]) {
+				onParam = true
+			}
+		}
+		if onParam {
+			// lifted below with the receiver translated into the caller's label of that parameter
+		} else if g.Signature.Recv() != nil && fn.Signature.Recv() != nil && namedOf(g.Signature.Recv().Type()) != namedOf(fn.Signature.Recv().Type()) {
 			if !embeds(namedOf(fn.Signature.Recv().Type()), namedOf(g.Signature.Recv().Type())) {
 				continue
 			}
@@ -714,7 +723,7 @@ func liftedGuards(fn *ssa.Function, depth int) []guard {
 			trans := map[string][]string{}
 			for i := range g.Params {
 				L := paramLabel(g, i)
-				if L == "" || L == "recv" || i >= len(call.Call.Args) {
+				if L == "" || (L == "recv" && !onParam) || i >= len(call.Call.Args) {
 					continue
 				}
 				trans[L] = paramFields(fn, call.Call.Args[i])
